@@ -57,10 +57,10 @@ for n, k, t, tier in [(9, 1, 135, "quick"), (33, 1, 250, "thorough"), (65, 2, 55
 # ---------------------------------------------------------------------------------------------------------------- C20
 add = prop("C20", "c20",
  "Bounded model checking of the real complement tables, revcomp, Alphabet/RankTransform and GC-content code: all 256 byte values (complements), all byte contents of sequences of the listed lengths (revcomp, gc), every non-empty subset of the listed candidate symbols with symbolic texts (alphabets) are covered by the solver in one query each.",
- "Bound: dna/rna complement over all 256 bytes (involution, case bit preserved, non-IUPAC bytes fixed, A-T/U and C-G pairs); revcomp twice = identity and revcomp = reverse o complement for lengths 1,3,4; gc_content/gc3_content == count/len as one f32 division for lengths 1,4,6,7; Alphabet::{insert,len,is_word,max_symbol} and RankTransform::{new,get} for all non-empty subsets of 3-5 candidate bytes (incl. 0, 31/32 block boundary, 255) with symbolic texts of length 2-3. " + TRUST + "Not decided: orf::Finder (VecDeque codon window + Vec<VecDeque>::contains + per-frame Vecs of symbolic length: 7 symbols timed out at 25 min).",
+ "Bound: dna/rna complement over all 256 bytes (involution, case bit preserved, non-IUPAC bytes fixed, A-T/U and C-G pairs); revcomp twice = identity and revcomp = reverse o complement for lengths 1,3 (quick) and 4,5,6 (thorough); gc_content/gc3_content == count/len as one f32 division for lengths 1,4,6,7 (quick) and 9,12,24 (thorough); Alphabet::{insert,len,is_word,max_symbol} and RankTransform::{new,get} for all non-empty subsets of 3-5 candidate bytes (incl. 0, 31/32 block boundary, 255) with symbolic texts of length 2-3. " + TRUST + "Not decided: orf::Finder (VecDeque codon window + Vec<VecDeque>::contains + per-frame Vecs of symbolic length: 7 symbols timed out at 25 min).",
  ["bio::alphabets::dna::{complement,revcomp}", "bio::alphabets::rna::{complement,revcomp}", "bio::alphabets::Alphabet::{new,insert,len,is_empty,is_word,max_symbol}", "bio::alphabets::RankTransform::{new,get}", "bio::seq_analysis::gc::{gc_content,gc3_content,gcn_content}"],
  "see level_note",
- "orf::Finder::find_all; sequences longer than 7 (gc) / 4 (revcomp); alphabets other than the listed candidate sets; protein alphabets",
+ "orf::Finder::find_all; sequences longer than 24 (gc) / 6 (revcomp); alphabets other than the listed candidate sets; protein alphabets",
  ["gc_content is only asserted for non-empty sequences (0/0 is NaN by IEEE)"])
 add("c20_dna_complement", 77, "dna::complement, all 256 byte values")
 add("c20_rna_complement", 76, "rna::complement, all 256 byte values")
@@ -68,6 +68,8 @@ add("c20_dna_revcomp_n1", 70, "dna::revcomp, length 1, all bytes")
 add("c20_dna_revcomp_n3", 70, "dna::revcomp, length 3, all bytes")
 add("c20_rna_revcomp_n3", 66, "rna::revcomp, length 3, all bytes")
 add("c20_dna_revcomp_n4", 71, "dna::revcomp, length 4, all bytes", tier="thorough")
+add("c20_dna_revcomp_n6", 80, "dna::revcomp, length 6, all bytes", tier="thorough")
+add("c20_rna_revcomp_n5", 80, "rna::revcomp, length 5, all bytes", tier="thorough")
 add("c20_alphabet_small_c4_t3", 111, "Alphabet/RankTransform over every non-empty subset of {0,1,2,5}, symbolic text of length 3, symbolic queried member")
 add("c20_alphabet_block_c4_t2", 258, "Alphabet/RankTransform over every non-empty subset of {0,31,32,63} (32-bit block boundary of the bit set), symbolic text of length 2", tier="thorough")
 add("c20_alphabet_c3_t2", 319, "Alphabet/RankTransform over every non-empty subset of {31,32,255}, symbolic text of length 2", tier="thorough")
@@ -76,6 +78,9 @@ add("c20_gc_n1", 2, "gc_content/gc3_content, length 1", min_covers=1)
 add("c20_gc_n4", 2, "gc_content/gc3_content, length 4", min_covers=2)
 add("c20_gc_n6", 3, "gc_content/gc3_content, length 6", min_covers=2)
 add("c20_gc_n7", 4, "gc_content/gc3_content, length 7", min_covers=2)
+add("c20_gc_n9", 6, "gc_content/gc3_content, length 9", min_covers=2, tier="thorough")
+add("c20_gc_n12", 10, "gc_content/gc3_content, length 12", min_covers=2, tier="thorough")
+add("c20_gc_n24", 20, "gc_content/gc3_content, length 24", min_covers=2, tier="thorough")
 
 # ---------------------------------------------------------------------------------------------------------------- C08
 add = prop("C08", "c08",
